@@ -113,6 +113,9 @@ type frame struct {
 
 // Unit verifies one function body against its contract block.
 type Unit struct {
+	inlining map[*types.Func]bool // helpers being executed in place (recursion guard)
+	renameBack     map[string]string // current name of a renamed variable -> the name the contracts use
+	renameBackDone bool
 	eng   *Engine
 	u     *Universe
 	pkg   *packages.Package
@@ -224,10 +227,45 @@ func (x *Unit) srcOf(n ast.Node) string {
 	}
 	var b strings.Builder
 	if e, ok := n.(ast.Expr); ok {
-		return types.ExprString(e)
+		return x.oldNames(types.ExprString(e))
 	}
 	_ = b
 	return fmt.Sprintf("%T", n)
+}
+
+// oldNames rewrites the text of an expression of the function under verification so that variables renamed since the
+// contracts were written appear under the names the contracts use (site keys of at-clauses, result_of and calls, and the
+// names of obligations are such texts). Field and method selectors are left alone.
+func (x *Unit) oldNames(text string) string {
+	if !x.renameBackDone {
+		x.renameBackDone = true
+		x.renameBack = x.computeRenameBack()
+	}
+	if len(x.renameBack) == 0 {
+		return text
+	}
+	var b strings.Builder
+	isId := func(c byte) bool { return c == '_' || c >= '0' && c <= '9' || c >= 'a' && c <= 'z' || c >= 'A' && c <= 'Z' || c >= 0x80 }
+	for i := 0; i < len(text); {
+		c := text[i]
+		if isId(c) && !(c >= '0' && c <= '9') {
+			j := i
+			for j < len(text) && isId(text[j]) {
+				j++
+			}
+			word := text[i:j]
+			if old, ok := x.renameBack[word]; ok && (i == 0 || text[i-1] != '.') {
+				b.WriteString(old)
+			} else {
+				b.WriteString(word)
+			}
+			i = j
+			continue
+		}
+		b.WriteByte(c)
+		i++
+	}
+	return b.String()
 }
 
 // oblige records an obligation pc => goal.
